@@ -661,19 +661,67 @@ let cmd_engine (ps : int) (script : string) : unit =
   let ord : Byte.byte list list ref = ref [] in
   let bound : coq_N option ref = ref None in      (* id of the oldest read transaction open when the writer began *)
   let n = ref 0 and compared = ref 0 and exact = ref 0 in
+  let reads = ref 0 and reads_skipped = ref 0 in
   let stop = ref false in
+  (* the state of the open write transaction after the operations so far: EngineScan.tx_state, kept incrementally
+     (tx_state = fold_res txm_step; an error state stays) *)
+  let txst : (Engine.bucket * Engine.txs) Engine.res ref = ref (Engine.Err String.EmptyString) in
+  let tx_open () = txst := Engine.Ok (Engine.root_bucket !st, Engine.begin_w !st) in
+  let push o =
+    ops := !ops @ [o];
+    (match !txst with Engine.Ok acc -> txst := EngineScan.txm_step (!st).Engine.d_disk acc o | _ -> ()) in
+  (* a read the library answered inside the write transaction: `<kind> <path> args | <answer>` *)
+  let read_line (lineno : int) (what : string) (expected : string) (model : Engine.bucket -> string Engine.res) =
+    match !txst with
+    | Engine.Ok (rb, _) ->
+        (match model rb with
+         | Engine.Ok got ->
+             incr reads;
+             if got <> expected then begin
+               Printf.printf "DIFF line=%d read inside the write transaction `%s`: model `%s` library `%s`\n" lineno what
+                 (if S.length got > 200 then S.sub got 0 200 else got) (if S.length expected > 200 then S.sub expected 0 200 else expected);
+               stop := true end
+         | Engine.Panic msg -> Printf.printf "DIFF line=%d model panics on a read: %s\n" lineno (string_of_coq msg); stop := true
+         | Engine.Err _ -> incr reads_skipped)
+    | Engine.Panic msg -> Printf.printf "DIFF line=%d model panics: %s\n" lineno (string_of_coq msg); stop := true
+    | Engine.Err _ -> incr reads_skipped in
+  let fmt_lent (e : Engine.leafent) = match e with
+    | Engine.LKv (k, v) -> "kv:" ^ hex k ^ ":" ^ hex v | Engine.LBk (k, _, _) -> "bk:" ^ hex k in
+  let rmap f r = match r with Engine.Ok a -> Engine.Ok (f a) | Engine.Panic m -> Engine.Panic m | Engine.Err e -> Engine.Err e in
   L.iter (fun line ->
     incr n;
     if !stop then () else
+    let (line, expected) =
+      let len = S.length line in
+      let rec find i = if i + 3 > len then -1 else if S.sub line i 3 = " | " then i else find (i + 1) in
+      let i = find 0 in
+      if i < 0 then (line, "") else (S.sub line 0 i, S.trim (S.sub line (i + 3) (len - i - 3))) in
     match L.filter (fun x -> x <> "") (S.split_on_char ' ' (S.trim line)) with
-    | ["tx"] -> ops := []; ord := []; bound := None
-    | ["tx"; b] -> ops := []; ord := []; bound := Some (num b)
-    | ["T"; path] -> ops := !ops @ [Engine.Touch (path_of path)]
-    | ["P"; path; k; v] -> ops := !ops @ [Engine.Put (path_of path, tok k, tok v)]
-    | ["D"; path; k] -> ops := !ops @ [Engine.Del (path_of path, tok k)]
-    | ["X"; path; name] -> ops := !ops @ [Engine.DelB (path_of path, tok name)]
+    | ["tx"] -> ops := []; ord := []; bound := None; tx_open ()
+    | ["tx"; b] -> ops := []; ord := []; bound := Some (num b); tx_open ()
+    | ["T"; path] -> push (Engine.Touch (path_of path))
+    | ["P"; path; k; v] -> push (Engine.Put (path_of path, tok k, tok v))
+    | ["D"; path; k] -> push (Engine.Del (path_of path, tok k))
+    | ["X"; path; name] -> push (Engine.DelB (path_of path, tok name))
+    | ["G"; path; k] ->
+        let d = (!st).Engine.d_disk in
+        (* twice: the engine's own search through the overlay, and the cursor machine on the overlay tree *)
+        read_line !n ("get " ^ path ^ " " ^ k) expected (fun rb ->
+          rmap (fun o -> match o with None -> "opt:none" | Some e -> "opt:" ^ fmt_lent e) (EngineScan.ovl_get d rb (path_of path) (tok k)));
+        if not !stop then
+        read_line !n ("cursor get " ^ path ^ " " ^ k) expected (fun rb ->
+          rmap (fun o -> match o with None -> "opt:none" | Some i -> "opt:" ^ fmt_item i) (EngineScan.ovl_cget d rb (path_of path) (tok k)))
+    | ["S"; path] ->
+        read_line !n ("scan " ^ path) expected (fun rb ->
+          rmap (fun r -> "items:" ^ fmt_cur r) (EngineScan.ovl_scan (!st).Engine.d_disk rb (path_of path)))
+    | ["K"; path; k] ->
+        read_line !n ("seek " ^ path ^ " " ^ k) expected (fun rb ->
+          rmap (fun (ex, r) -> "seek:" ^ (if ex then "1" else "0") ^ ":" ^ fmt_cur r) (EngineScan.ovl_seek (!st).Engine.d_disk rb (path_of path) (tok k)))
+    | ["R"; path; lk; lo; hk; hi] ->
+        read_line !n ("range " ^ path) expected (fun rb ->
+          rmap (fun r -> "items:" ^ fmt_cur r) (EngineScan.ovl_range (!st).Engine.d_disk rb (path_of path) (bound_of lk lo) (bound_of hk hi)))
     | "ord" :: names -> ord := L.map tok names
-    | ["rollback"] -> ops := []
+    | ["rollback"] -> ops := []; txst := Engine.Err String.EmptyString
     | ["reopen"] -> st := Engine.reopen_db !st
     | ["commit"; file] ->
         (match (match !bound with None -> Engine.run_tx !st !ops !ord | Some b -> EngineR.run_tx_r !st b !ops !ord) with
@@ -707,7 +755,7 @@ let cmd_engine (ps : int) (script : string) : unit =
          | Engine.Panic msg -> Printf.printf "DIFF line=%d model panics: %s\n" !n (string_of_coq msg); stop := true
          | Engine.Err msg -> Printf.printf "DIFF line=%d model error: %s\n" !n (string_of_coq msg); stop := true)
     | _ -> ()) (read_lines script);
-  Printf.printf "done commits=%d exact=%d\n" !compared !exact
+  Printf.printf "done commits=%d exact=%d reads=%d reads_skipped=%d\n" !compared !exact !reads !reads_skipped
 
 (* ---------- model-side search: the engine model alone against the reference, over shape families ----------
    The engine is validated page-for-page against the library on the histories the checks run; here it is run on its
